@@ -78,19 +78,20 @@ def project(obj):
         nan = [[bool(np.isnan(un[k, r])) for r in range(NT)] for k in range(n)]
         loc = np.asarray(obj.location, float); sc = np.asarray(obj.scale, float)
         mcnt = np.sum(~np.isnan(un), axis=0).astype(float)          # present values per trait
+        eok = [True]      # lattice flag of the extrema (independent of how the stored values are centred)
         p = {"ids": ids, "un": unr, "nan": nan, "unlat": ok[0],
              "nameon": obj.taxa is not None, "grpon": obj.taxa_grp is not None,
              "name": [str(x) for x in obj.taxa] if obj.taxa is not None else [],
              "grp": [int(x) for x in obj.taxa_grp] if obj.taxa_grp is not None else [],
              "locm": rnd(loc * mcnt, sok), "varmm": rnd(sc * sc * mcnt * mcnt, sok),
-             "tmaxu": rnd(obj.tmax(unscale=True), sok), "tminu": rnd(obj.tmin(unscale=True), sok),
-             "trngu": rnd(obj.trange(unscale=True), sok), "tmeanm": rnd(np.asarray(obj.tmean(unscale=True)) * mcnt, sok),
+             "tmaxu": rnd(obj.tmax(unscale=True), eok), "tminu": rnd(obj.tmin(unscale=True), eok),
+             "trngu": rnd(obj.trange(unscale=True), eok), "tmeanm": rnd(np.asarray(obj.tmean(unscale=True)) * mcnt, sok),
              "tvarmm": rnd(np.asarray(obj.tvar(unscale=True)) * mcnt * mcnt, sok),
              "tstdmm": rnd(np.asarray(obj.tstd(unscale=True)) ** 2 * mcnt * mcnt, sok),
-             "smax": rnd(np.asarray(obj.tmax(unscale=False)) * sc + loc, sok),
-             "smin": rnd(np.asarray(obj.tmin(unscale=False)) * sc + loc, sok),
+             "smax": rnd(np.asarray(obj.tmax(unscale=False)) * sc + loc, eok),
+             "smin": rnd(np.asarray(obj.tmin(unscale=False)) * sc + loc, eok),
              "amax": [int(x) for x in np.asarray(obj.targmax())], "amin": [int(x) for x in np.asarray(obj.targmin())]}
-        p["statlat"] = sok[0]
+        p["statlat"] = sok[0]; p["extlat"] = eok[0]
     return p
 
 
@@ -176,6 +177,28 @@ def run(ctx):
                 except Exception as e:
                     c0["err"] = "%s: %s" % (type(e).__name__, str(e)[:200]); c0["post"] = project(cur)
                 out.append(c0)
+            # truncation in place: the worst (or best) taxa for the first trait are removed from the matrix itself, down to one half
+            # and down to a single taxon (all retained values then lie on one side of the former mean)
+            pre_t = project(cur)
+            if len(pre_t["ids"]) >= 2 and -1 not in pre_t["ids"]:
+                order = sorted(range(len(pre_t["ids"])), key=lambda k_: TABLE["y"][pre_t["ids"][k_]][0])
+                for keep in (1, max(1, len(order) // 2)):
+                    for dele in (order[:len(order) - keep], order[keep:]):
+                        if not dele or len(dele) == len(order):
+                            continue
+                        for form in ("specific", "generic+"):
+                            work = copy.deepcopy(cur); work.unscale(); project(work)
+                            c1 = {"id": len(out) + 1, "cls": clsname, "qual": getattr(cls, "remove_taxa" if form == "specific" else "remove").__qualname__,
+                                  "op": "delete", "form": form, "mut": True, "ix": [], "del": sorted(dele), "pos": [], "blk": [], "raw": False,
+                                  "pre": pre_t["ids"], "err": None, "tab": TABLE, "objrepr": "truncation"}
+                            try:
+                                res = execute(work, cls, "delete", {"obj": np.array(sorted(dele)), "del": sorted(dele)}, form, True, with_grp)
+                                c1["post"] = project(res)
+                            except Exception as e:
+                                c1["err"] = "%s: %s" % (type(e).__name__, str(e)[:200]); c1["post"] = pre_t
+                            pi = c1["post"]["ids"]
+                            if not (pi and all(i == -1 or TABLE["miss"][i][3] for i in pi)):
+                                out.append(c1)
             for step in range(12 if thorough else 9):
                 pre = project(cur)
                 if -1 in pre["ids"] or not pre["ids"]:
